@@ -1525,6 +1525,66 @@ package leveldb
 //@   ensures [C20:arguments-not-retained] !sameblock(b.data, key) && !sameblock(b.data, value)
 //@   ensures [C20:arguments-not-modified] unchanged(key) && unchanged(value)
 
+// C01 / C17: opening a table. The reader is cached under the table's file number, reads the table's own file with the
+// size the version records, and keeps its blocks in the block cache under the table's file number as namespace - under
+// another table's number a lookup would be served that table's blocks.
+//@ func (*tOps).open
+//@   props C01 C17
+//@   safety off
+//@   at before call (*Cache).Get#1
+//@     assert [C01,C17:the-reader-is-cached-under-the-tables-file-number] arg0 == 0 && arg1 == f.fd.Num
+//@ func (*tOps).open$1
+//@   props C01 C17
+//@   safety off
+//@   at before call (*iStorage).Open#1
+//@     assert [C01,C17:the-tables-own-file-is-opened] arg0.Num == f.fd.Num && arg0.Type == f.fd.Type
+//@   at before call NewReader#1
+//@     assert [C01,C17:the-reader-gets-the-recorded-size-and-its-own-block-namespace] arg1 == f.size && arg2.Num == f.fd.Num && (t.blockCache != nil ==> (arg3 != nil && arg3.NS == f.fd.Num && arg3.Cache == t.blockCache)) && (t.blockCache == nil ==> arg3 == nil)
+
+// C07 / C17: a lookup gives the table's cache handle back on every path (a handle that is kept pins the reader and
+// with it the file: the table can never be removed); an iterator takes the handle along and gives it back with its own
+// release.
+//@ ghost var gTableOpened bool
+//@ ghost var gTableHandleBack bool
+//@ func (*tOps).findKey
+//@   props C07 C17
+//@   safety off
+//@   at entry
+//@     ghost gTableOpened = false
+//@     ghost gTableHandleBack = false
+//@   at after stmt ch, err := t.open(f)
+//@     ghost gTableOpened = err == nil
+//@   at call (*Handle).Release#1
+//@     ghost gTableHandleBack = true
+//@   ensures [C07,C17:the-table-handle-is-given-back] gTableOpened ==> gTableHandleBack
+//@ func (*tOps).offsetOf
+//@   props C07 C17
+//@   safety off
+//@   at entry
+//@     ghost gTableOpened = false
+//@     ghost gTableHandleBack = false
+//@   at after stmt ch, err := t.open(f)
+//@     ghost gTableOpened = err == nil
+//@   at call (*Handle).Release#1
+//@     ghost gTableHandleBack = true
+//@   ensures [C07,C17:the-table-handle-is-given-back] gTableOpened ==> gTableHandleBack
+//@ func (*tOps).find
+//@   props C07 C17
+//@   safety off
+//@   at entry
+//@     ghost gTableOpened = false
+//@     ghost gTableHandleBack = false
+//@   at after stmt ch, err := t.open(f)
+//@     ghost gTableOpened = err == nil
+//@   at call (*Handle).Release#1
+//@     ghost gTableHandleBack = true
+//@   ensures [C07,C17:the-table-handle-is-given-back] gTableOpened ==> gTableHandleBack
+//@ func (*tOps).newIterator
+//@   props C07 C17
+//@   safety off
+//@   at before call util.ReleaseSetter.SetReleaser#1
+//@     assert [C07,C17:the-iterator-takes-the-table-handle-along] arg0 == ch && ch != nil
+
 // Results of reads are private copies. version.get hands on what tOps.find returned (its value flows through
 // closures called by walkOverlapping: that pass-through is trusted, the two ends are proved).
 //@ func (*tOps).find
